@@ -115,7 +115,9 @@ func (r *Result) Merge(o *Result, cfg string) {
 			}
 		}
 		if !dup {
-			v.Msg += " [" + cfg + "]"
+			if cfg != "" {
+				v.Msg += " [" + cfg + "]"
+			}
 			r.Violations = append(r.Violations, v)
 		}
 	}
